@@ -1,6 +1,6 @@
 (* PerRun.v (C20) — the per-run obligations about the REGENERATED functions live in
    PerRunAug.v (clause c), PerRunPass.v (a, b), PerRunInterp.v / PerRunSched.v (interpreted parameters),
-   PerRunVal.v (e, d, F13); they share PerRunBase.v and are compiled in parallel by the
+   PerRunVal.v (e, d, F13), PerRunChain.v (end to end; after Pass and Val); they share PerRunBase.v and are compiled in parallel by the
    check.  This file only re-exports them (the harness evaluates the status booleans
    through it). *)
-From SV Require Export C20.PerRunBase C20.PerRunAug C20.PerRunPass C20.PerRunInterp C20.PerRunSched C20.PerRunVal.
+From SV Require Export C20.PerRunBase C20.PerRunAug C20.PerRunPass C20.PerRunInterp C20.PerRunSched C20.PerRunVal C20.PerRunChain.
